@@ -7,10 +7,11 @@ import yaql
 from yaql.language import specs, yaqltypes
 
 
-def all_definitions():
-    """[(layer index, name, fd)] over the whole chain, deterministic order"""
+def all_definitions(root=None):
+    """[(layer index, name, fd)] over the whole chain of `root` (default: a fresh yaql.create_context()),
+    deterministic order"""
     out = []
-    c = yaql.create_context()
+    c = root if root is not None else yaql.create_context()
     li = 0
     while c is not None:
         fns = getattr(c, '_functions', {})
